@@ -17,7 +17,12 @@ Definition H (s : string) : bytes := unhex s.
 Inductive case :=
 | Cm (thr : N) (batches : list (list flat)) (mem disk : list flat) (err : N)
     (* Current() before Close, Current() of the reopened manager, 0 = Verify and Open succeeded *)
-| Cc (thr : N) (batches : list (list flat)) (crashes : list (N * list (list flat * N))).
+| Cc (thr : N) (batches : list (list flat)) (crashes : list (N * list (list flat * N)))
+| Cr (thr : N) (batches1 batches2 : list (list flat)) (mem disk : list flat) (err : N).
+    (* the last LogEdits of batches1 rewrites the manifest and the process dies after the new
+       manifest and CURRENT.tmp are written but before the rename (orphan manifest file);
+       Verify + Open on that image, batches2 logged (more rewrites), Current() = mem; Close;
+       Verify + Open again: Current() = disk *)
     (* per in-flight batch index k: the states recovered from the snapshots taken during
        LogEdits(batch k), each with the error class of Verify/Open (0 = ok) *)
 
@@ -71,6 +76,22 @@ Definition check (c : case) : verdict :=
                         && match rr_flat (reload (m_fs m)) with Some f => flats_eqb f disk | None => false end))
                  (negb (flats_eqb mem disk && (err =? 0)))
                  0
+  | Cr thr batches1 batches2 mem disk err =>
+      let bs1 := unflat_batches batches1 in
+      let m := log_all (create_new thr) (removelast bs1) in
+      let m1 := appended m (last bs1 []) in
+      let snap := enc_all (snapshot_edits (m_ver m1)) in
+      let crashfs := set_tmp (man_set (m_fs m1) (new_id m1) snap) (Some []) in
+      let model_ok :=
+        needs_rewrite m1 &&
+        match open_mgr thr crashfs with
+        | None => false
+        | Some m2 =>
+            let m3 := log_all m2 (unflat_batches batches2) in
+            flats_eqb (vflat (m_ver m3)) mem &&
+            match rr_flat (reload (m_fs m3)) with Some f => flats_eqb f disk | None => false end
+        end in
+      mk_verdict (negb model_ok) (negb (flats_eqb mem disk && (err =? 0))) 0
   | Cc thr batches crashes =>
       let bs := unflat_batches batches in
       let res := map (fun kc =>
